@@ -17,6 +17,8 @@ func main() {
 		locTextMain(os.Args[2:])
 	case "region":
 		regionMain(os.Args[2:])
+	case "feat":
+		featMain(os.Args[2:])
 	default:
 		fmt.Fprintf(os.Stderr, "unknown driver %q\n", os.Args[1])
 		os.Exit(2)
